@@ -537,9 +537,13 @@ func (fx *FuncCtx) extern(st *State, x *ssa.Call, callee *ssa.Function, args []V
 		return fx.Fresh(x.Type(), "bufwrite"), true
 	case "encoding/binary.ReadUvarint":
 		v := fx.FreshSym("uvarint", SBV64)
-		for _, a := range fx.eng.externAssume[name] {
-			env := &SpecEnv{fx: fx, st: st, vars: map[string]Value{"r0": v}, info: a.Info}
-			st.assume(env.evalBool(a.Expr))
+		// assumptions on the result may be scoped to the calling function: extern NAME@CALLER ensures ...
+		for _, key := range []string{name, name + "@" + funcKey(f.fn)} {
+			for _, a := range fx.eng.externAssume[key] {
+				env := &SpecEnv{fx: fx, st: st, vars: map[string]Value{"r0": v}, info: a.Info}
+				st.assume(env.evalBool(a.Expr))
+				fx.warn("assumed on %s: %s", key, a.Src)
+			}
 		}
 		return TupleVal{v, IfaceVal{Nil: fx.FreshSym("uverr", SBool)}}, true
 	}
